@@ -794,7 +794,7 @@ func cmdC01(seed int64, tier, outDir string) {
 	}
 	n *= optBoost
 	id := 0
-	for _, p := range append(append(c01Corpus(), c01StageCorpus()...), pgStrCorpus()...) {
+	for _, p := range append(append(append(c01Corpus(), c01StageCorpus()...), pgStrCorpus()...), c01ShadowCorpus()...) {
 		id++
 		run.runCase(p, id)
 	}
@@ -805,4 +805,18 @@ func cmdC01(seed int64, tier, outDir string) {
 		run.runCase(pgGenProgram(r, c01Statics, maxNodes), id)
 	}
 	finish()
+}
+
+// c01ShadowCorpus: an outer name (bound to a computed constant or a run-time value) read inside a func or closure body, then
+// hidden by a local of the same name that is read again - the five forms of pgShadowAfterUse, which the random stream
+// produces only now and then (seeded/C02-e broke C01 as well: the captured value won over the local).
+func c01ShadowCorpus() []*pgProgram {
+	var ps []*pgProgram
+	for form := 0; form < 5; form++ {
+		for _, c := range [][2]int64{{2, 3}, {5, 1}} {
+			ps = append(ps, &pgProgram{T: pgShadowAfterUse(form, []string{"a", "b", "f", "n", "m"}, pgNId("x"), c[0], c[1]), ArgNames: []string{"x"},
+				Tuples: [][]*Tree{{c01Ti(5)}, {c01Ti(1)}, {c01Ti(-7)}}, Stream: "corpus"})
+		}
+	}
+	return ps
 }
